@@ -244,6 +244,36 @@ fn geodesics(h: &H, idx: u64, rng: &mut Rng) {
     let (lon1, lat1) = (rng.range(-PI, PI), rng.range(-89.0, 89.0) * D2R);
     let p1 = Coor2D::raw(lon1, lat1);
     match what {
+        // towards a pole: the inverse problem to a target at, or within metres of, a pole, and the
+        // direct problem back along the azimuth and distance it gave
+        0 if (idx / 50) % 3 == 0 => {
+            h.class("geodesic/to-a-pole");
+            let off = match rng.below(4) {
+                0 => 0.0,
+                _ => 10f64.powf(rng.range(-10.0, -4.0)),
+            };
+            let lat2 = (FRAC_PI_2 - off) * if rng.chance(0.5) { 1.0 } else { -1.0 };
+            let p2 = Coor2D::raw(rng.range(-PI, PI), lat2);
+            let inv = e.geodesic_inv(&p1, &p2);
+            h.eval(1);
+            if inv[3] >= 1000.0 || inv[2] > maxd {
+                return;
+            }
+            let d = e.geodesic_fwd(&p1, inv[0], inv[2]);
+            h.eval(1);
+            // (the chord between the two points: near a pole the longitude means little)
+            let (ca, cb) = (ell.to_cart(p2[0], p2[1], 0.0), ell.to_cart(d[0], d[1], 0.0));
+            let miss = ((ca[0] - cb[0]).powi(2) + (ca[1] - cb[1]).powi(2) + (ca[2] - cb[2]).powi(2)).sqrt();
+            h.max("geodesic to a pole: direct(inverse) misses the target by (m)", miss / sz, || format!("{name} from {lon1} {lat1} to lat {lat2}"));
+            if d[3] >= 1000.0 || !(miss <= 1.0e-4 * sz) {
+                v(
+                    h,
+                    idx,
+                    "direct-and-inverse-inconsistent/towards-a-pole",
+                    J::obj().set("ellipsoid", &name).set("from_lon_lat", J::coords(&[lon1, lat1])).set("target_lon_lat", J::coords(&[p2[0], p2[1]])).set("inverse_result", J::coords(&inv.0)).set("direct_result", J::coords(&d.0)).set("miss_m", miss),
+                );
+            }
+        }
         // direct and inverse are mutually consistent; end point symmetry
         0..=5 => {
             h.class("geodesic/general");
